@@ -83,7 +83,7 @@ def observe(b, bd, mat, case, runner=cli.run, label='in-process', classes_out=No
             raise Violation(f'no source yields a transaction, yet `tally up` ({label}) exited 0{ctx}', case, 'empty-run')
         return comp, None
     for name, r in (('--format json', r_json), ('html', r_html)):
-        if r.code != 0 or 'Traceback' in r.err:
+        if r.code != 0 or obs.crashed(r.err):
             raise Violation(f'`tally up {name}` ({label}) failed (exit {r.code}):\n{(r.err or r.out)[-1200:]}{ctx}', case, 'up-failed')
     try:
         jd = json.loads(r_json.out)
